@@ -225,6 +225,16 @@ impl Clone for UBig {
     }
 }
 
+/// Read-only verification hook, compiled only with `--cfg dashu_verif`.
+#[cfg(dashu_verif)]
+impl UBig {
+    /// See `Repr::__verif_raw`.
+    #[doc(hidden)]
+    pub fn __verif_repr(&self) -> (isize, usize, bool, alloc::vec::Vec<crate::Word>) {
+        self.0.__verif_raw()
+    }
+}
+
 #[cfg(test)]
 mod tests {
     use super::*;
